@@ -117,6 +117,9 @@ impl Property for C13 {
         let yield_bias = src.below(8);
         // one transient read error at the flush's first or second store call (its manifest reload)
         let flush_get_fault: Option<u64> = if concurrent && src.chance(1, 5) { Some(src.below(2)) } else { None };
+        // one corrupted read (a bit flipped in transit, the stored object intact) of the j-th object the
+        // compaction reads: an input segment that cannot be validated must stay where it is
+        let compact_corrupt_read: Option<u64> = if src.chance(1, 6) { Some(1 + src.below(5)) } else { None };
         let trace = ctx.trace;
         if trace {
             for e in &stream { rep.trace.push(format!("t+{}ms {} -> {} @({},{})", e.wall_ms - t0, e.op, e.delta.value.crdt_type(), e.delta.value.timestamp.time, e.delta.value.timestamp.replica_id.0)); }
@@ -163,7 +166,9 @@ impl Property for C13 {
             let mut order: Vec<u32> = Vec::new();
             let mut steps = 0;
             if !concurrent {
-                let mut compactor = Compactor::with_time_source(Arc::new(st.clone()), PREFIX.to_string(), ManifestManager::new(st.clone(), PREFIX), ccfg, clock.clone());
+                let st_c = st.as_actor(1);
+                if let Some(j) = compact_corrupt_read { st.set_who_plan([((1u32, j), crate::simkit::store::StoreFault::GetCorrupt)].into_iter().collect()); }
+                let mut compactor = Compactor::with_time_source(Arc::new(st_c.clone()), PREFIX.to_string(), ManifestManager::new(st_c.clone(), PREFIX), ccfg, clock.clone());
                 for _ in 0..n_compactions {
                     match compactor.compact().await { Ok(r) => { compact_ok.push(true); removed.extend(r.segments_removed.iter().map(|s| s.id)); } Err(_) => compact_ok.push(false) }
                 }
@@ -174,9 +179,14 @@ impl Property for C13 {
                 let mut p = match StreamingPersistence::with_clock(Arc::new(st_f.clone()), PREFIX.to_string(), 1, wcfg, clock.clone()).await { Ok(p) => p, Err(e) => return Out { before, after: Err(e.to_string()), compact_ok, flush_ok, removed, input_keys: vec![], cops, fops, order, steps, manifest_before: Some(manifest), setup: Some("persistence".into()) } };
                 for d in &extra2 { let _ = p.push(d.clone()); }
                 let mut compactor = Compactor::with_time_source(Arc::new(st_c.clone()), PREFIX.to_string(), ManifestManager::new(st_c.clone(), PREFIX), ccfg, clock.clone());
-                if let Some(j) = flush_get_fault {
-                    let done = st.inner.lock().unwrap().who_ops.get(&2).copied().unwrap_or(0);
-                    st.set_who_plan([((2u32, done + j), crate::simkit::store::StoreFault::GetError)].into_iter().collect());
+                {
+                    let mut plan: BTreeMap<(u32, u64), crate::simkit::store::StoreFault> = BTreeMap::new();
+                    if let Some(j) = flush_get_fault {
+                        let done = st.inner.lock().unwrap().who_ops.get(&2).copied().unwrap_or(0);
+                        plan.insert((2u32, done + j), crate::simkit::store::StoreFault::GetError);
+                    }
+                    if let Some(j) = compact_corrupt_read { plan.insert((1u32, j), crate::simkit::store::StoreFault::GetCorrupt); }
+                    if !plan.is_empty() { st.set_who_plan(plan); }
                 }
                 st.set_yield(true);
                 let ops0 = st.ops();
@@ -218,7 +228,7 @@ impl Property for C13 {
             rep.trace.push(format!("compact results {:?}, flush result {:?}, segments removed {:?}", out.compact_ok, out.flush_ok, out.removed));
         }
         let _ = OpKind::Put;
-        for e in store.inner.lock().unwrap().events.iter() { if let Some(f) = e.fault { rep.fault(f.name()); rep.probe("flush_reload_failed_transiently"); } }
+        for e in store.inner.lock().unwrap().events.iter() { if let Some(f) = e.fault { rep.fault(f.name()); rep.probe(if e.who == 2 { "flush_reload_failed_transiently" } else { "compaction_read_corrupted" }); } }
         if out.setup.is_some() { rep.evals = 1; return rep; }
         let before = match out.before { Ok(b) => b, Err(e) => { rep.violate("C13/recover-before-failed", e); return rep; } };
         // the recorded race needs the two operations to be in progress at the same time: their spans of store
